@@ -221,6 +221,37 @@ def work(task):
     return acc.result()
 
 
+LARGE = [((300, 0), (2, 100, 150, 151)),
+         ((70000, 1, 0), (2, 257, 17500, 17501, 35000)),
+         ((66000, 66000, 0, 1), (256, 4096, 16500, 33000, 33001)),
+         ((40, 0, 1, 0, 1, 0, 30), (3, 5, 6, 10)),
+         ((4097, 4096, 0, 0, 1, 1), (2, 1024, 1025))]
+
+
+def work_large(task):
+    """sizes, cluster counts and refill sizes beyond the exhaustive grid (8/12/16-bit widths, K = 6, 7)"""
+    from vlib import lib
+    lib.load("nojit")
+    from fast_ticc import cluster_maintenance as cm
+    if not isinstance(cm.random, seams.ScriptedRandom):
+        cm.random = seams.ScriptedRandom()
+    acc = Acc()
+    (sizes, m) = task
+    K = len(sizes)
+    for spreads in (tuple(range(1, K + 1)), tuple(range(K, 0, -1)), tuple((3 * i) % K + 1 for i in range(K)) if K % 3 else tuple(range(1, K + 1))):
+        for layout in ("sorted", "interleaved"):
+            for draw in ("first", "last"):
+                acc.n += 1
+                msg, tag = judge(sizes, m, spreads, layout, draw, repeat=2 if sum(sizes) < 1000 else 1)
+                acc.count("large_outcome", str(tag))
+                if tag in ("repopulated", "error"):
+                    acc.nontrivial += 1
+                if msg:
+                    acc.fail({"sizes": list(sizes), "m": m, "spreads": list(spreads), "layout": layout,
+                              "draw": draw, "repeat": 2 if sum(sizes) < 1000 else 1}, msg[:400])
+    return acc.result()
+
+
 def grid(ctx):
     if ctx.thorough:
         km = [(2, 1), (2, 2), (2, 3), (3, 1), (3, 2), (3, 3), (4, 1), (4, 2), (5, 1)]
@@ -240,6 +271,8 @@ def run(ctx):
     tasks, km = grid(ctx)
     for r in ctx.pmap(work, tasks):
         ctx.take(r)
+    for r in ctx.pmap(work_large, [(sz, m) for (sz, ms) in LARGE for m in ms]):
+        ctx.take(r)
     ctx.cov["exhaustive"] = True
     ctx.cov["grid_K_m"] = [list(x) for x in km]
     ctx.cov["rule"] = (
@@ -248,6 +281,7 @@ def run(ctx):
         "donor when C(n,m)<=20}; plus histories: the output fed back 3 times, with and without the clusters' spreads being re-ranked (reversed) between applications. Reference model in refs.py "
         "(needy = size<2 in the input; donors = input clusters with >=2m that still hold >=2m, largest spread "
         "first, exactly m per refill; otherwise RuntimeError naming the donor shortage, input untouched). "
+        "Plus larger fixed cases (sizes, m): " + str(LARGE) + " x 3 spread orders x 2 layouts x 2 draws. "
         "non-trivial = cases that repopulate or must raise")
     ctx.assumptions.append("reading of 'no cluster holds at least 2m points' as 'no donor can still spare m' (DESIGN.md C08)")
 
